@@ -200,12 +200,14 @@ def step1 (fo : FloatOps) (fuel : Nat) (s : St) (op : Json) : E (St × Json) := 
     let r ← reg "h"
     let h ← s.get r
     let o ← s.get (← reg "o")
-    refusable do pure (s.set r (← h.isub fo o), Json.str "ok")
+    let free := getBoolD op "free" false
+    refusable do pure (s.set r (← if free then h.isubFree fo o else h.isub fo o), Json.str "ok")
   | "sub" =>
     let a ← s.get (← reg "a")
     let b ← s.get (← reg "b")
     let out ← reg "out"
-    refusable do pure (s.set out (← a.isub fo b), Json.str "ok")
+    let free := getBoolD op "free" false
+    refusable do pure (s.set out (← if free then a.isubFree fo b else a.isub fo b), Json.str "ok")
   | "imul" | "mul" =>
     let r ← reg "h"
     let h ← s.get r
@@ -219,6 +221,24 @@ def step1 (fo : FloatOps) (fuel : Nat) (s : St) (op : Json) : E (St × Json) := 
     let c ← getRat (← field op "c")
     let out ← if name == "idiv" then pure r else reg "out"
     refusable do pure (s.set out (← h.idiv c), Json.str "ok")
+  | "normalize" =>
+    let r ← reg "h"
+    let h ← s.get r
+    let inplace := getBoolD op "inplace" false
+    let out ← if inplace then pure r else reg "out"
+    refusable do pure (s.set out (← h.normalize inplace (getBoolD op "percent" false)), Json.str "ok")
+  | "invalid" => pure (s, Json.str "REFUSED")
+  | "sum" =>
+    let hs ← getList (fun x => x.getNat?) (← field op "hs")
+    let out ← reg "out"
+    match hs with
+    | [] => throw "empty sum"
+    | i :: rest =>
+      let first ← s.get i
+      let others ← rest.mapM s.get
+      refusable do
+        let tot ← others.foldlM (fun acc o => acc.iadd fo o) first
+        pure (s.set out tot, Json.str "ok")
   | "merge" =>
     let r ← reg "h"
     let h ← s.get r
